@@ -28,6 +28,21 @@ theorem abel_const_mul (A : ℝ) (f : ℝ → ℝ) (x : ℝ) : Abel (fun r => A 
   unfold Abel
   rw [integral_const_mul]; ring
 
+/-- changing the source at a single radius does not change its Abel transform -/
+theorem abel_congr_except {f g : ℝ → ℝ} (r0 x : ℝ) (h : ∀ r, r ≠ r0 → f r = g r) : Abel f x = Abel g x := by
+  unfold Abel
+  congr 1
+  apply setIntegral_congr_ae measurableSet_Ioi
+  have hc : ∀ᵐ z ∂(volume : Measure ℝ), z ∉ ({Real.sqrt (r0 ^ 2 - x ^ 2)} : Set ℝ) :=
+    (Set.countable_singleton _).ae_notMem volume
+  filter_upwards [hc] with z hz hz0
+  apply h
+  intro he
+  apply hz
+  rw [Set.mem_singleton_iff, ← he, Real.sq_sqrt (by positivity)]
+  have : x ^ 2 + z ^ 2 - x ^ 2 = z ^ 2 := by ring
+  rw [this, Real.sqrt_sq (le_of_lt hz0)]
+
 theorem LosInt.add {f g : ℝ → ℝ} {x : ℝ} (hf : LosInt f x) (hg : LosInt g x) : LosInt (fun r => f r + g r) x :=
   Integrable.add hf hg
 
